@@ -10,7 +10,6 @@ package main
 
 import (
 	"os"
-	"os/exec"
 	"strings"
 
 	"verif/ev"
@@ -31,47 +30,6 @@ func main() {
 		}
 	}
 	runConcurrency(r)
-	runRacePass(r)
+	mcx.RacePass(r, 9, "mux.")
 	r.Finish()
-}
-
-// runRacePass runs the free-running -race binary built by ./check (supplementary: it samples
-// schedules, so it can only add a violation).
-func runRacePass(r *ev.Run) {
-	bin := os.Getenv("VERIF_RACE_BIN")
-	if bin == "" || mcx.IsWorker() || ev.Arg("replay") != "" || ev.Arg("only") != "" {
-		return
-	}
-	cmd := exec.Command(bin, os.Getenv("VERIF_RACE_ARG"))
-	cmd.Env = append(os.Environ(), "GORACE=halt_on_error=1 exitcode=66")
-	out, err := cmd.CombinedOutput()
-	r.Set("race_pass", map[string]any{"ran": true, "iterations_per_goroutine": os.Getenv("VERIF_RACE_ARG"), "goroutines": 9, "kind": "supplementary sampling under the Go race detector; silence is not a verdict"})
-	if err != nil {
-		report := string(out)
-		if i := strings.Index(report, "WARNING: DATA RACE"); i >= 0 {
-			report = report[i:]
-		}
-		if len(report) > 2500 {
-			report = report[:2500]
-		}
-		// signature: the two functions named first in the report
-		sig := "data-race"
-		var fns []string
-		for _, l := range strings.Split(report, "\n") {
-			l = strings.TrimSpace(l)
-			if strings.HasPrefix(l, "github.com/plgd-dev/go-coap/v3/mux.") && len(fns) < 2 {
-				f := strings.TrimPrefix(l, "github.com/plgd-dev/go-coap/v3/")
-				if k := strings.Index(f, "()"); k > 0 {
-					f = f[:k]
-				}
-				if len(fns) == 0 || fns[0] != f {
-					fns = append(fns, f)
-				}
-			}
-		}
-		if len(fns) > 0 {
-			sig += "/" + strings.Join(fns, "+")
-		}
-		r.Violate(sig, "the Go race detector reported a data race between router operations run from real goroutines: "+report, map[string]any{"cmd": bin, "arg": os.Getenv("VERIF_RACE_ARG")})
-	}
 }
